@@ -739,6 +739,9 @@ pub fn exec(out: &mut Out, st: &mut State, line: &str) -> (String, bool) {
         *st = State::new();
         return ("ok".into(), false);
     }
+    if a[1] == "codec" {
+        return crate::c05_codec::exec(out, line);
+    }
     if a[1] == "builtin" {
         let id: u32 = a[2].parse().unwrap();
         return (st.codes.get(&id).map(|c| hex(c)).unwrap_or_else(|| "none".into()), true);
@@ -1402,12 +1405,25 @@ pub fn gen(tier: Tier, seed: u64) -> Vec<String> {
         v.extend(cols);
         v.push("c05 save".to_string());
     }
+
+    // (5) the codec family (c05_codec.rs): every style of the attribute lists above alone in a new workbook, plus
+    // random full styles, rows and columns; the real XML element of each component goes to the model
+    let n_rand = if tier == Tier::Thorough { 600 } else { 60 };
+    let mut rand_encs: Vec<String> = vec![];
+    while rand_encs.len() < n_rand {
+        let e = rand_style(&mut rng).enc();
+        if e != "-" {
+            rand_encs.push(e);
+        }
+    }
+    crate::c05_codec::gen(&mut v, &mut rng, &fonts, &fills, &borders, &misc, &nfs, &rand_encs);
     v
 }
 
 pub fn run(out: &mut Out, tier: Tier, seed: u64, replay: Option<Vec<String>>) {
-    let ops = match replay {
-        Some(r) => r,
+    let ops: Vec<String> = match replay {
+        // the `codecx` lines of a replay are derived from their `codec` request and are regenerated
+        Some(r) => r.into_iter().filter(|l| !l.starts_with("c05 codecx ")).collect(),
         None => gen(tier, seed),
     };
     out.flush_each = false;
